@@ -7,7 +7,7 @@
 set -u
 ROOT=$(dirname "$(readlink -f "$0")")
 SD=$1; NAME=$2; shift 2
-export GOFLAGS=-mod=mod GOPROXY=off GOSUMDB=off GOTOOLCHAIN=local
+export GOFLAGS=-mod=mod GOPROXY=off GOSUMDB=off GOTOOLCHAIN=local GOCACHE=/tmp/verif-gocache-alt
 W=$(mktemp -d /tmp/seedwt.XXXXXX); rmdir $W
 git -C /repo worktree add -q --detach $W HEAD || exit 9
 cleanup() { git -C /repo worktree remove --force $W 2>/dev/null; rm -rf $W; }
@@ -15,31 +15,19 @@ trap cleanup EXIT
 OUT=$ROOT/seeded/$NAME; mkdir -p $OUT
 cp $SD/patch.diff $SD/meta.json $OUT/ 2>/dev/null
 for f in $SD/*; do case $(basename $f) in patch.diff|meta.json) ;; *) cp -r $f $OUT/ ;; esac; done
-DEMO=$(python3 -c "import json;print(json.load(open('$SD/meta.json')).get('demo_cmd',''))")
+DEMO=${DEMO_CMD:-$(python3 -c "import json;print(json.load(open('$SD/meta.json')).get('demo_cmd',''))")}
 echo "demo_cmd: $DEMO"
 # place the demonstration files where the agent had them (paths relative to repo root are kept in meta.files or run.txt)
-place_demo() { python3 - "$SD" "$1" <<'PY'
-import json,sys,os,shutil
-sd,w=sys.argv[1:3]
-m=json.load(open(sd+'/meta.json'))
-for f in m.get('demo_files',[]):
-    src=os.path.join(sd,os.path.basename(f)); dst=os.path.join(w,f)
-    os.makedirs(os.path.dirname(dst),exist_ok=True); shutil.copy(src,dst)
-PY
-}
+# DEMO_PLACE="src-in-seed-dir=dst-in-repo,..." says where the demonstration files go
+place_demo() { IFS=, ; for pr in ${DEMO_PLACE:-}; do src=${pr%%=*}; dst=${pr#*=}; mkdir -p $1/$(dirname $dst); cp $SD/$src $1/$dst; done; unset IFS; }
+remove_demo() { IFS=, ; for pr in ${DEMO_PLACE:-}; do dst=${pr#*=}; rm -f $1/$dst; done; unset IFS; }
 place_demo $W
 ( cd $W && bash -c "$DEMO" ) > $OUT/demo_without.log 2>&1; rc0=$?
 ( cd $W && git apply $SD/patch.diff ) || { echo "patch does not apply"; exit 9; }
-( cd $W && go build ./... ) > $OUT/build.log 2>&1 || { echo "does not build"; exit 9; }
+( cd $W && go build -trimpath ./... ) > $OUT/build.log 2>&1 || { echo "does not build"; exit 9; }
 ( cd $W && bash -c "$DEMO" ) > $OUT/demo_with.log 2>&1; rc1=$?
 # existing tests (without the demonstration files)
-python3 - "$SD" "$W" <<'PY'
-import json,sys,os
-sd,w=sys.argv[1:3]
-for f in json.load(open(sd+'/meta.json')).get('demo_files',[]):
-    p=os.path.join(w,f)
-    if os.path.exists(p): os.remove(p)
-PY
+remove_demo $W
 ( cd $W && go test -count=1 ./... ) > $OUT/existing_tests.log 2>&1; rct=$?
 echo "demo without change rc=$rc0 (want 0); with change rc=$rc1 (want !=0); existing tests with change rc=$rct (want 0)"
 res="{}"
